@@ -417,4 +417,25 @@ harness!(t_clone, h3, "reachable: all 9 histories of <= 3 inserts executed", bod
 harness!(t_clone_drop, h3, "reachable: all 9 histories of <= 3 inserts executed", body_clone_drop);
 harness!(t_clone_clear, h3, "reachable: all 9 histories of <= 3 inserts executed", body_clone_clear);
 harness!(t_iter, q3, "reachable: histories Q3 executed", body_iter);
-harness!(t_into_iter, q3, "reachable: histories Q3 executed", body_into_iter);
+// consuming iteration: one history per harness (Flatten<IntoIter<IntoIter<T>>> needs 2-3 GB per history in CBMC)
+macro_rules! one_aab {
+    ($f:ident) => {
+        $f(&[0, 0, 1]);
+    };
+}
+
+macro_rules! one_aba {
+    ($f:ident) => {
+        $f(&[0, 1, 0]);
+    };
+}
+
+macro_rules! one_abc {
+    ($f:ident) => {
+        $f(&[0, 1, 2]);
+    };
+}
+
+harness!(t_into_iter_a, one_aab, "reachable: history [a,a,b] executed", body_into_iter);
+harness!(t_into_iter_b, one_aba, "reachable: history [a,b,a] executed", body_into_iter);
+harness!(t_into_iter_c, one_abc, "reachable: history [a,b,c] executed", body_into_iter);
